@@ -521,6 +521,64 @@ fn reinit_family(input: &[u8], level: i32, zlib: bool, place: Place) -> Result<u
     Ok(n)
 }
 
+
+/// mz_inflateInit2 called again on a live inflate stream (no mz_inflateEnd), same and other
+/// framing: the stream must then behave like InflateState::new_boxed_with_window_bits - also for
+/// input that can see the window (a stream whose matches reach before its own start).
+fn reinit_inflate_family(place: Place) -> Result<u64, String> {
+    let mut n = 0u64;
+    let a: Vec<u8> = (0..40_000usize).map(|i| b'A' + (i % 23) as u8).collect();
+    let probe = crate::props::c18::before_start_window_dump();
+    unsafe {
+        for first_wb in [-15i32, 15] {
+            for second_wb in [-15i32] {
+                for sched in [(usize::MAX, 100_000usize), (7usize, 1000usize)] {
+                    let first = if first_wb > 0 { miniz_oxide::deflate::compress_to_vec_zlib(&a, 6) } else { miniz_oxide::deflate::compress_to_vec(&a, 6) };
+                    let mut zs = capi::new_stream();
+                    if c::mz_inflateInit2(&mut zs, first_wb) != 0 {
+                        return Err("mz_inflateInit2 failed".into());
+                    }
+                    let mut ip = 0;
+                    for _ in 0..1000 {
+                        let o = capi::stream_call(&mut zs, true, &first, ip, first.len() - ip, 100_000, 0, place).map_err(|e| format!("accounting: {}", e))?;
+                        ip += o.consumed;
+                        n += 1;
+                        if o.ret != 0 {
+                            break;
+                        }
+                    }
+                    let rc = c::mz_inflateInit2(&mut zs, second_wb);
+                    if rc != 0 {
+                        c::mz_inflateEnd(&mut zs);
+                        return Err(format!("mz_inflateInit2 on a live stream returned {}", rc));
+                    }
+                    let mut rs = InflateState::new_boxed_with_window_bits(second_wb);
+                    let data = &probe.bytes;
+                    let mut ip = 0;
+                    for i in 0..100_000 {
+                        let k = sched.0.min(data.len() - ip);
+                        let o = capi::stream_call(&mut zs, true, data, ip, k, sched.1, 0, place).map_err(|e| format!("accounting: {}", e))?;
+                        let mut rbuf = vec![0u8; sched.1];
+                        let rr = inflate(&mut rs, &data[ip..ip + k], &mut rbuf, MZFlush::None);
+                        n += 1;
+                        let rcode = mzres_code(&rr.status);
+                        if o.ret != rcode || o.consumed != rr.bytes_consumed || o.written != rr.bytes_written || o.out[..] != rbuf[..rr.bytes_written] {
+                            c::mz_inflateEnd(&mut zs);
+                            return Err(format!("re-initialised live inflate stream (window_bits {} then {}), call {}: mz_inflate -> ({}, {}, {}), inflate() on a new state -> ({}, {}, {}){}", first_wb, second_wb, i, o.ret, o.consumed, o.written, rcode, rr.bytes_consumed, rr.bytes_written, if o.out[..] != rbuf[..rr.bytes_written.min(rbuf.len())] { ", bytes differ" } else { "" }));
+                        }
+                        ip += o.consumed;
+                        if o.ret != 0 || (o.consumed == 0 && o.written == 0) {
+                            break;
+                        }
+                    }
+                    c::mz_inflateEnd(&mut zs);
+                }
+            }
+        }
+    }
+    Ok(n)
+}
+
 /// tdefl_create_comp_flags_from_zip_params == create_comp_flags_from_zip_params on every argument triple.
 fn flags_sweep(rep: &Report) -> u64 {
     let mut n = 0;
@@ -989,7 +1047,14 @@ pub fn run(tier: &str) -> i32 {
         }
     });
     let pair_calls: u64 = pres.iter().sum();
-    let sweep = param_sweep(&rep) + flags_sweep(&rep);
+    let mut sweep = param_sweep(&rep) + flags_sweep(&rep);
+    for place in [Place::End, Place::Start] {
+        match guarded(|| reinit_inflate_family(place)) {
+            Ok(Ok(k)) => sweep += k,
+            Ok(Err(e)) => rep.violation("C17/pairwise/reinit-live-inflate-stream", e, json!({"kind": "reinit-inflate"})),
+            Err(p) => rep.violation("C17/panic", format!("panic {}", p), json!({"kind": "reinit-inflate"})),
+        }
+    }
     let mis = run_misuse(&rep);
     rep.set("states", json!(scheds + pitems.len() as u64));
     rep.set("transitions", json!(calls + pair_calls + sweep + mis));
